@@ -9,7 +9,7 @@ EXPLANATION = ('Static rules on BehaviorSubject: B1 next() stores the new value 
                'a clone of the cell content to the new observer and then joins the inner subject; B3 the value cell is the subject family\'s '
                'shared pointer type (MutRc/MutArc, whose Clone clones the pointer), so all clones see one value; B4/B5 store+broadcast and '
                'replay+join each lie in one critical section (required for the thread-safe form; reported as known findings today); next_by = '
-               'peek, user f, next; B7 no method holds the exclusive (write) guard of the value cell while it broadcasts, calls the new observer or runs a user closure (peek()/next_by()/subscribe from inside a callback must work). Does not decide exactly-once delivery of later items (C06) nor values.')
+               'peek, user f, next; B8 peek() takes only the shared (read) guard of the value cell; B7 no method holds the exclusive (write) guard of the value cell while it broadcasts, calls the new observer or runs a user closure (peek()/next_by()/subscribe from inside a callback must work). Does not decide exactly-once delivery of later items (C06) nor values.')
 ASSUMPTIONS = ['B4/B5 concern SubjectThreads instantiations with concurrent producers only']
 
 CONTROLS = [
@@ -79,6 +79,16 @@ def check(cx):
                                    'the value cell is free whenever a callback can run' if badn is None else
                                    'a notification / user closure runs while the exclusive guard of the value cell is held: peek(), next_by() or a subscribe from inside that callback panics (RefCell) or deadlocks (Mutex)',
                                    mg.loc(badn) if badn else mfn['span'], [node_desc(mg, badn)] if badn else None))
+            if tr == 'behavior::Behavior':
+                pfn = F.impl_fn(im, 'peek')
+                if pfn is not None:
+                    pg = cx.graph(pfn['key'])
+                    from ..core import guard_of
+                    wr = [x for x in pg.nodes if guard_of(x) and guard_of(x)[1] == VCLS and guard_of(x)[2] == 'W']
+                    res.append(Finding(ID, 'B8', roles.stable_label(cx, pfn), not wr,
+                                       'peek() only reads the value cell (shared guard)' if not wr else
+                                       'peek() takes the exclusive guard of the value cell: a peek() from inside a callback that runs while the cell is being read (the replay to a new subscriber) panics (RefCell) instead of returning the current value',
+                                       pg.loc(wr[0]) if wr else pfn['span']))
             if tr == 'behavior::Behavior' and any(f['n'] == 'next_by' for f in im.get('fns', [])):
                 mfn = F.impl_fn(im, 'next_by')
                 mg = cx.graph(mfn['key'])
